@@ -43,6 +43,9 @@ struct Cfg {
     x0: Vec<f64>,
     z0: Vec<f64>,
     maxdepth: u64,
+    /// the transition starts from a state that was NOT whitened under the active transformation
+    /// (as the first draw after a mass-matrix update does): initialize_trajectory has to re-derive it
+    stale_start: bool,
 }
 
 #[derive(Clone, Debug, PartialEq)]
@@ -55,15 +58,53 @@ struct Outcome {
     drawn_x: Vec<f64>,
 }
 
+/// replace the transformation of a running system (every call bumps the transformation id)
+trait Install {
+    fn install(&mut self, math: &mut M, t: &Trafo);
+    fn install_other(&mut self, math: &mut M, d: usize);
+}
+impl Install for nv::DiagMassMatrix<M> {
+    fn install(&mut self, math: &mut M, t: &Trafo) {
+        if let Trafo::Diag { stds, mean } = t {
+            nv::diag_mass_matrix_set(self, math, &col(stds), &col(mean));
+        }
+    }
+    fn install_other(&mut self, math: &mut M, d: usize) {
+        let stds: Vec<f64> = (0..d).map(|i| 2.0 + 0.5 * i as f64).collect();
+        nv::diag_mass_matrix_set(self, math, &col(&stds), &col(&vec![-0.3; d]));
+    }
+}
+impl Install for LowRankMassMatrix<M> {
+    fn install(&mut self, math: &mut M, t: &Trafo) {
+        if let Trafo::LowRank { stds, mean, vals, vecs, mu_inner } = t {
+            let d = stds.len();
+            let vm: Mat<f64> = Mat::from_fn(d, vals.len(), |i, j| vecs[j][i]);
+            self.update(math, col(stds), col(mean), col(vals), vm, col(mu_inner));
+        }
+    }
+    fn install_other(&mut self, math: &mut M, d: usize) {
+        let stds: Vec<f64> = (0..d).map(|i| 2.0 + 0.5 * i as f64).collect();
+        self.update(math, col(&stds), col(&vec![-0.3; d]), col(&[]), Mat::from_fn(d, 0, |_, _| 0.0), col(&vec![0.0; d]));
+    }
+}
+
 /// one execution of the real transition from (x0, z0) with the given RNG
-fn run_impl<T: Transformation<M>, R: rand::Rng>(
+fn run_impl<T: Transformation<M> + Install, R: rand::Rng>(
     s: &mut crate::c02::Sys<T>,
     cfg: &Cfg,
     x0: &[f64],
     z0: &[f64],
     rng: &mut R,
 ) -> Result<(Outcome, Recorded), String> {
-    let mut init = s.h.init_state(&mut s.math, x0).map_err(|e| format!("init_state: {e}"))?;
+    let mut init = if cfg.stale_start {
+        // whiten the start state under ANOTHER transformation, then install the configured one
+        s.h.transformation_mut().install_other(&mut s.math, x0.len());
+        let st = s.h.init_state(&mut s.math, x0).map_err(|e| format!("init_state: {e}"))?;
+        s.h.transformation_mut().install(&mut s.math, &cfg.trafo);
+        st
+    } else {
+        s.h.init_state(&mut s.math, x0).map_err(|e| format!("init_state: {e}"))?
+    };
     s.spy.borrow_mut().gaussian_script.clear();
     s.spy.borrow_mut().gaussian_script.push_back(z0.to_vec());
     let rec = Rc::new(RefCell::new(Recorded::default()));
@@ -123,7 +164,7 @@ struct RowResult {
 const MARGIN: f64 = 1e-7;
 
 /// explore every answer vector from (x0, z0); compare every execution with R-nuts
-fn explore_from<T: Transformation<M>>(
+fn explore_from<T: Transformation<M> + Install>(
     s: &mut crate::c02::Sys<T>,
     cfg: &Cfg,
     x0: &[f64],
@@ -445,7 +486,23 @@ pub fn run(tier: Tier, _replay: Option<String>) -> i32 {
                                     x0: x0.clone(),
                                     z0: z0.clone(),
                                     maxdepth,
+                                    stale_start: false,
                                 });
+                                // the same transition from a state whitened under another
+                                // transformation (log-determinant != 0 for these three)
+                                if trn != "identity" && maxdepth == 2 && pi == zi {
+                                    cfgs.push(Cfg {
+                                        name: format!("{tn}-{trn}-{kind:?}-eps{step}-x{pi}-z{zi}-maxdepth{maxdepth}-stale-start"),
+                                        target: target.clone(),
+                                        trafo: trafo.clone(),
+                                        kind,
+                                        step,
+                                        x0: x0.clone(),
+                                        z0: z0.clone(),
+                                        maxdepth,
+                                        stale_start: true,
+                                    });
+                                }
                             }
                         }
                     }
